@@ -36,7 +36,7 @@ def _design_checks(ctx):
 def c15(ctx: Ctx):
     ctx.assumptions = [
         "TLC; spec/SharedState.tla: every piece of process-wide or document-attached mutable state is a location; the access sequence of an operation <<entry, feature>> is composed from the entry's and the feature's accesses, transcribed from the code; all interleavings are exhausted in the model only",
-        "on the code the Go race detector is the sensor (happens-before based: it reports a race whenever both accesses occurred unordered in the run, independent of timing, but only for access pairs the chosen operations actually perform): 8 goroutines per operation released together, 100 (quick) / 200 (thorough) iterations, fresh pattern strings, media types and Go types per case so first-use paths overlap",
+        "on the code the Go race detector is the sensor (happens-before based: it reports a race whenever both accesses occurred unordered in the run, independent of timing, but only for access pairs the chosen operations actually perform): 8 goroutines per operation released together, 100 iterations, fresh pattern strings, media types and Go types per case so first-use paths overlap",
         "T.Validate, router construction and the Register* / Define* functions are documented writers and are not part of the validation-time catalogue (MC_C15 variant writers_included shows why)",
         "the error type is part of what a call returns (classified with errors.As, never by text)",
     ]
